@@ -507,4 +507,8 @@ def templates():
     add('dotlink', ['a', 'a/x', '.L', 'a/.L2'], ['a', '', None])
     add('twostar', ['r', 'r/c', 'r/c/x', 'r/c/x/y', 'L'], ['r', 'r/c', None])
     add('linkfile', ['d', 'd/f', 'd/lf', 'lf', 'ld'], ['d/f', 'd', None])
+    add('nonascii', ['caf\xe9', 'caf\xe9/x', 'b', 'b/\xfcx'])
+    add('meta', ['a\\b', 'a*b', '[x]', 'a', 'a/b', 'a/!y'])
+    add('casedirs', ['Data', 'data', 'DATA', 'Data/s1', 'data/s2'])
+    add('dirsonly', ['p', 'p/q', 'p/q/f', 'p/r', 'g'])
     return T
